@@ -15,6 +15,7 @@ import (
 // If you don't have any special needs, we recommend code=1000, reason=nil
 // https://developer.mozilla.org/zh-CN/docs/Web/API/CloseEvent#status_codes
 func (c *Conn) WriteClose(code uint16, reason []byte) error {
+	verifSched("c.cas", c)
 	if atomic.CompareAndSwapUint32(&c.closed, 0, 1) {
 		var buf = binaryPool.Get(128)
 		code = internal.SelectValue(code < 1000, 1000, code)
@@ -35,6 +36,7 @@ func (c *Conn) writeClose(ev error, reason []byte) error {
 	}
 	c.ev.Store(ev)
 	err := c.doWrite(OpcodeCloseConnection, internal.Bytes(reason))
+	verifSched("c.tclose", c)
 	_ = c.conn.Close()
 	return err
 }
@@ -113,6 +115,7 @@ func (c *Conn) Async(f func()) {
 // 执行写入逻辑, 注意妥善维护压缩字典
 // Executes the write logic, ensuring proper maintenance of the compression dictionary
 func (c *Conn) doWrite(opcode Opcode, payload internal.Payload) error {
+	verifSched("w.lock", c)
 	c.mu.Lock()
 	defer c.mu.Unlock()
 
@@ -133,6 +136,7 @@ func (c *Conn) doWrite(opcode Opcode, payload internal.Payload) error {
 	if err != nil {
 		return err
 	}
+	verifSched("w.write", c)
 	err = internal.WriteN(c.conn, frame.Bytes())
 	_, _ = payload.WriteTo(&c.cpsWindow)
 	binaryPool.Put(frame)
@@ -245,10 +249,13 @@ func NewBroadcaster(opcode Opcode, payload []byte) *Broadcaster {
 // 将帧数据写入连接
 // Writes the frame data to the connection
 func (c *Broadcaster) writeFrame(socket *Conn, frame *bytes.Buffer) error {
+	verifSched("b.start", socket)
 	if socket.isClosed() {
 		return ErrConnClosed
 	}
+	verifSched("b.lock", socket)
 	socket.mu.Lock()
+	verifSched("b.write", socket)
 	var err = internal.WriteN(socket.conn, frame.Bytes())
 	_, _ = socket.cpsWindow.Write(c.payload)
 	socket.mu.Unlock()
